@@ -288,18 +288,20 @@ func (generator *ConverterGenerator) mappingForOption(context Context, converter
 	for _, assignment := range assignments {
 		i++
 
+		if assignment.Value.Argument != nil {
+			// the other paths written from that argument are not read: the
+			// options that write them are still needed
+			if _, mapped := mappedArguments[assignment.Value.Argument.Name]; mapped {
+				continue
+			}
+			mappedArguments[assignment.Value.Argument.Name] = struct{}{}
+		}
+
 		generator.generatedPaths[generator.assignmentKey(assignment)] = struct{}{}
 
 		// no need for an argument if the assignment uses a constant value
 		if assignment.Value.Constant != nil {
 			continue
-		}
-
-		if assignment.Value.Argument != nil {
-			if _, mapped := mappedArguments[assignment.Value.Argument.Name]; mapped {
-				continue
-			}
-			mappedArguments[assignment.Value.Argument.Name] = struct{}{}
 		}
 
 		argName := fmt.Sprintf("arg%d", i)
